@@ -6,6 +6,7 @@ from ..core import AnalysisError, unparse, where
 from ..cfg import forward, dominators, _walk_no_nested, path_str
 from ..seq import (gen_cfg, yields_of, check_rdisc, assigned_names,
                    _is_attr_chain)
+from ..normal import normalise
 
 MOD = "dali.sequences"
 GEAR = "dali.gear.general."
@@ -33,6 +34,7 @@ def check(run, repo, world):
 
     # ---- QueryDeviceTypes -------------------------------------------------
     m, fn, _ = world.func(MOD + ".QueryDeviceTypes")
+    fn = normalise(fn, world, MOD)
     Q = MOD + ".QueryDeviceTypes"
     cfg = gen_cfg(fn, Q)
     ys = yields_of(cfg, world, MOD)
@@ -49,6 +51,7 @@ def check(run, repo, world):
 
     # ---- QueryGroups ------------------------------------------------------
     m, fn, _ = world.func(MOD + ".QueryGroups")
+    fn = normalise(fn, world, MOD)
     G = MOD + ".QueryGroups"
     gcfg = gen_cfg(fn, G)
     gys = yields_of(gcfg, world, MOD)
@@ -57,6 +60,7 @@ def check(run, repo, world):
 
     # ---- SetGroups --------------------------------------------------------
     m, fn, _ = world.func(MOD + ".SetGroups")
+    fn = normalise(fn, world, MOD, primitives=("QueryGroups",))
     S = MOD + ".SetGroups"
     scfg = gen_cfg(fn, S)
     sys_ = yields_of(scfg, world, MOD)
@@ -135,6 +139,10 @@ def _check_mono(run, mod, Q, cfg, ys):
                     guards.append((n, l, r.id, op, False))
                 elif isinstance(l, ast.Name) and _value_expr_vars(r) & fresh:
                     guards.append((n, r, l.id, op, True))
+                elif _last_of(r) and _value_expr_vars(l) & fresh:
+                    guards.append((n, l, ("last", _last_of(r)), op, False))
+                elif _last_of(l) and _value_expr_vars(r) & fresh:
+                    guards.append((n, r, ("last", _last_of(l)), op, True))
         nsites += 1
         key = "%s#loop@%s" % (Q, _loop_key(head))
         if not guards:
@@ -143,6 +151,7 @@ def _check_mono(run, mod, Q, cfg, ys):
                    "answering makes the sequence loop for ever",
                    where(mod, head))
             continue
+        extra_guards = set()
         for (tn, vexpr, tracker, op, swapped) in guards:
             # which edge is the 'violating' one (value <= tracker)?
             if not swapped:
@@ -161,9 +170,24 @@ def _check_mono(run, mod, Q, cfg, ys):
             upd = bool(ot) and all(
                 _must_assign(m, head, tracker, vexpr) for m in ot)
             # initial value below the 8-bit domain
-            init = _init_value(cfg, tracker, body)
-            init_ok = init is not None and (
-                init < 0 if strict_ok else init <= 0)
+            if isinstance(tracker, tuple):
+                # the tracker is the last element of an accumulator list:
+                # empty before the loop, the guard skipped while empty
+                lst = tracker[1]
+                emp = _emptiness_test(tn, lst)
+                init = _list_init(cfg, lst, body)
+                init_ok = emp is not None and init == "[]" and \
+                    _only_appends(cfg, lst, body, vexpr)
+                if emp is not None:
+                    ef = [m for (l, m) in emp.succ if l == "F"]
+                    upd = upd and all(_must_assign(m, head, tracker, vexpr)
+                                      for m in ef)
+                    extra_guards.add(emp.id)
+                tracker = "%s[-1]" % lst
+            else:
+                init = _init_value(cfg, tracker, body)
+                init_ok = init is not None and (
+                    init < 0 if strict_ok else init <= 0)
             msg = []
             if not raises:
                 msg.append("the out-of-order branch does not raise")
@@ -176,7 +200,8 @@ def _check_mono(run, mod, Q, cfg, ys):
                            "unbounded" % tracker)
             if not init_ok:
                 msg.append("tracker `%s` starts at %r: device type 0 is "
-                           "rejected as out of order" % (tracker, init))
+                           "rejected as out of order (or the accumulator is "
+                           "not empty / not append-only)" % (tracker, init))
             run.ob("R-MONO", key + "#" + tracker,
                    raises and strict_ok and upd and init_ok,
                    "; ".join(msg), where(mod, tn),
@@ -185,7 +210,7 @@ def _check_mono(run, mod, Q, cfg, ys):
                            "updated_on_all_paths": upd})
         # the guard must be on every cycle that passes a yield: the head's
         # back edges are only reachable through a guard's ok edge
-        gids = {g[0].id for g in guards}
+        gids = {g[0].id for g in guards} | extra_guards
         free = _cycle_avoiding(head, body, gids, ynode)
         run.ob("R-MONO", key + "#guard-on-every-iteration", not free,
                "an iteration of the polling loop can complete without "
@@ -227,6 +252,13 @@ def _must_assign(start, head, tracker, vexpr):
         if (n.id, al) in seen:
             continue
         seen.add((n.id, al))
+        if isinstance(tracker, tuple) and n.kind == "stmt" and isinstance(
+                n.ast, ast.Expr) and isinstance(n.ast.value, ast.Call) and \
+                unparse(n.ast.value.func) == tracker[1] + ".append" and \
+                len(n.ast.value.args) == 1 and (
+                    unparse(n.ast.value.args[0]) == vtxt or
+                    unparse(n.ast.value.args[0]) in al):
+            continue            # appended on this path
         if n.kind == "stmt" and isinstance(n.ast, ast.Assign) and \
                 len(n.ast.targets) == 1 and isinstance(
                     n.ast.targets[0], ast.Name):
@@ -241,6 +273,54 @@ def _must_assign(start, head, tracker, vexpr):
         if n.kind in ("exit", "raise_exit"):
             continue
         stack += [(m, al) for (l, m) in n.succ if l != "exc"]
+    return True
+
+
+def _last_of(e):
+    """name X if e is X[-1]."""
+    if isinstance(e, ast.Subscript) and isinstance(e.value, ast.Name) and \
+            unparse(e.slice) == "-1":
+        return e.value.id
+    return None
+
+
+def _emptiness_test(guard, lst):
+    """The test node `lst` (non-empty) whose T edge leads to the guard."""
+    forms = (lst, "len(%s)" % lst, "len(%s) > 0" % lst, "%s != []" % lst,
+             "len(%s) != 0" % lst, "len(%s) >= 1" % lst)
+    for (l, p) in guard.pred:
+        if l == "T" and p.kind == "test" and unparse(p.ast) in forms:
+            return p
+    return None
+
+
+def _list_init(cfg, lst, body):
+    vals = []
+    for n in cfg.reachable:
+        if n.id in body:
+            continue
+        if n.kind == "stmt" and isinstance(n.ast, ast.Assign) and any(
+                isinstance(t, ast.Name) and t.id == lst
+                for t in n.ast.targets):
+            vals.append(unparse(n.ast.value))
+    return vals[0] if len(vals) == 1 else None
+
+
+def _only_appends(cfg, lst, body, vexpr):
+    """Inside the loop the list is only ever appended the received value."""
+    for n in cfg.reachable:
+        if n.id not in body or n.ast is None:
+            continue
+        for c in _walk_no_nested(n.ast):
+            if isinstance(c, ast.Call) and isinstance(
+                    c.func, ast.Attribute) and unparse(
+                        c.func.value) == lst and c.func.attr in (
+                            "pop", "clear", "remove", "insert", "extend",
+                            "sort", "reverse"):
+                return False
+            if isinstance(c, ast.Name) and c.id == lst and isinstance(
+                    c.ctx, (ast.Store, ast.Del)):
+                return False
     return True
 
 
@@ -349,19 +429,30 @@ def _check_concat(run, mod, G, cfg, ys, fn):
            where(mod, fn))
     L, H = lo[0].target, hi[0].target
     word = None
-    okc = False
+    sums = []          # (high+low order ok?, node)
     for n in cfg.reachable:
-        if n.kind == "stmt" and isinstance(n.ast, ast.Assign) and isinstance(
-                n.ast.value, ast.BinOp) and isinstance(
-                    n.ast.value.op, ast.Add):
-            b = n.ast.value
-            if _is_attr_chain(b.left, [H, "raw_value"]) and _is_attr_chain(
-                    b.right, [L, "raw_value"]):
-                okc = True
-                word = n.ast.targets[0].id
-            elif _is_attr_chain(b.left, [L, "raw_value"]) and \
-                    _is_attr_chain(b.right, [H, "raw_value"]):
-                word = n.ast.targets[0].id
+        if n.ast is None:
+            continue
+        for b in _walk_no_nested(n.ast):
+            if isinstance(b, ast.BinOp) and isinstance(b.op, ast.Add):
+                if _is_attr_chain(b.left, [H, "raw_value"]) and \
+                        _is_attr_chain(b.right, [L, "raw_value"]):
+                    sums.append((True, n))
+                elif _is_attr_chain(b.left, [L, "raw_value"]) and \
+                        _is_attr_chain(b.right, [H, "raw_value"]):
+                    sums.append((False, n))
+                else:
+                    continue
+                if n.kind == "stmt" and isinstance(n.ast, ast.Assign) and \
+                        n.ast.value is b and isinstance(
+                            n.ast.targets[0], ast.Name):
+                    word = n.ast.targets[0].id
+    okc = bool(sums) and all(o for (o, _) in sums)
+    wordtxt = ("%s.raw_value + %s.raw_value" % (H, L))
+
+    def is_word_bit(e, i):
+        return isinstance(e, ast.Subscript) and unparse(e.slice) == i and (
+            unparse(e.value) in (word, wordtxt, "(%s)" % wordtxt))
     run.ob("R-CONCAT", G + "#high+low", okc,
            "the 16-bit word must be <8-15 answer>.raw_value + <0-7 answer>"
            ".raw_value (left operand lands in the high bits)",
@@ -377,9 +468,7 @@ def _check_concat(run, mod, G, cfg, ys, fn):
             if isinstance(it, ast.Call) and unparse(it.func) == "range" and \
                     [unparse(a) for a in it.args] in (["16"], ["0", "16"]):
                 for t in cfg.reachable:
-                    if t.kind == "test" and isinstance(
-                            t.ast, ast.Subscript) and unparse(
-                                t.ast) == "%s[%s]" % (word, i):
+                    if t.kind == "test" and is_word_bit(t.ast, i):
                         for (l, mnode) in t.succ:
                             if l == "T" and mnode.kind == "stmt":
                                 for c in _walk_no_nested(mnode.ast):
@@ -403,8 +492,8 @@ def _check_concat(run, mod, G, cfg, ys, fn):
                         unparse(g.iter.func) == "range" and [
                             unparse(a) for a in g.iter.args] in (
                                 ["16"], ["0", "16"]) and len(g.ifs) == 1 \
-                        and unparse(g.ifs[0]) == "%s[%s]" % (
-                            word, g.target.id) and isinstance(c, ast.SetComp):
+                        and is_word_bit(g.ifs[0], g.target.id) \
+                        and isinstance(c, ast.SetComp):
                     okl = True
                     if isinstance(n.ast, ast.Return):
                         comp_ret = True
@@ -432,7 +521,7 @@ def _check_setgroups(run, world, mod, S, cfg, ys, fn):
     rems = [y for y in ys if _is(y, "RemoveFromGroup")]
     qg = [y for y in ys if y.is_from and y.fn and y.fn[1].name ==
           "QueryGroups"]
-    run.floor("SetGroups add/remove yields", len(adds) + len(rems), 4)
+    run.floor("SetGroups add/remove yields", len(adds) + len(rems), 2)
     ok = len(qg) == 1 and qg[0].call and unparse(qg[0].call.args[0]) == addr
     existing = None
     if ok:
